@@ -56,9 +56,19 @@ func errText(r host.Result) string {
 	if r.Err == nil {
 		return "<nil>"
 	}
-	s := r.Err.Error()
-	if len(s) > 600 {
-		s = s[:600] + "…"
+	var lines []string
+	for _, l := range strings.Split(r.Err.Error(), "\n") {
+		if len(l) > 200 {
+			l = l[:200] + "…"
+		}
+		if strings.Contains(l, "Was this error unhelpful") || strings.Contains(l, "Consider suggesting an improvement") {
+			continue
+		}
+		lines = append(lines, l)
+	}
+	s := strings.Join(lines, "\n")
+	if len(s) > 2500 {
+		s = s[:2500] + "…"
 	}
 	return s
 }
@@ -86,3 +96,19 @@ func endMarkerPos(r host.Result) int {
 }
 
 func indent(s string) string { return "    " + strings.ReplaceAll(s, "\n", "\n    ") }
+
+// execInfo describes one execution of a generated history to the hooks of other properties
+// (C23 health, C24 write discipline) that piggyback on the C22/C23/C20 runners.
+type execInfo struct {
+	idx          int
+	src          string
+	script       bool
+	expectFail   bool // the model says the execution fails
+	commits      bool // successful transaction
+	mutatedFirst bool // the execution changes storage/capabilities/contracts in memory (before failing, if it fails)
+}
+
+type execHooks struct {
+	before func(info execInfo, h *host.Host, eng host.Engine) string
+	after  func(info execInfo, r host.Result, h *host.Host, eng host.Engine) string
+}
